@@ -16,11 +16,16 @@ def handle_cell(cell: Cell, titles: Dict[str, int]):
         cell.title = titles[cell.title]
 
     if isinstance(cell.column, str):
-        cell.column = column_index_from_string(cell.column) - 1
+        try:
+            cell.column = column_index_from_string(cell.column) - 1
+        except ValueError as e:
+            raise E2PyclCellException(str(e))
 
     if isinstance(cell.row, str):
         if cell.row:
             cell.row = int(cell.row) - 1
+            if cell.row < 0:
+                raise E2PyclCellException('Row numbers start at 1')
         else:
             cell.row = None
 
